@@ -195,6 +195,40 @@ def extract(ctx):
             P.add('_AbstractIterable.__subclasshook__: `__iter__` test not recognised')
             excluded = []
 
+    # --- target_iter (glom/grouping.py): the lookup is outside the try, the handler call inside
+    titer, titer_catch = [], []
+    try:
+        grp = ctx['src_tree']('grouping.py')
+    except Exception:
+        grp = None
+    tfn = ctx['find_def'](grp, 'target_iter') if grp is not None else None
+    if tfn is None:
+        P.add('grouping.target_iter not found')
+    else:
+        for st in tfn.body:
+            if isinstance(st, ast.Assign):
+                titer.append(('assign', ast.unparse(st)))
+            elif isinstance(st, ast.Try):
+                titer.append(('try', '; '.join(ast.unparse(x) for x in st.body)))
+                for hd in st.handlers:
+                    raised = None
+                    for x in hd.body:
+                        if isinstance(x, ast.Raise) and isinstance(x.exc, ast.Call):
+                            raised = ast.unparse(x.exc.func)
+                    for c in ctx['exc_names'](hd.type):
+                        titer.append(('except ' + c, 'raise %s' % raised if raised else '<reraise>'))
+                        titer_catch.append((c, raised or '<reraise>'))
+                if st.orelse or st.finalbody:
+                    P.add('grouping.target_iter: try statement with else/finally not recognised')
+            elif isinstance(st, ast.Return):
+                titer.append(('return', ast.unparse(st)))
+            elif isinstance(st, ast.Expr) and isinstance(st.value, ast.Constant):
+                pass                                    # docstring
+            else:
+                P.add('grouping.target_iter: statement not recognised: %s' % ast.unparse(st)[:60])
+                titer = []
+                break
+
     T3 = 'List (String × String × String)'
     return [('RedFacts', 'decision logic of glom/reduction.py: Fold, Sum, Count, Flatten, Merge, flatten(), merge()',
              [('redFoldCatch', 'List (String × String)', catch),
@@ -206,4 +240,6 @@ def extract(ctx):
               ('redFlattenFn', 'List (String × String)', flat),
               ('redMergeFn', 'List (String × String)', mflat),
               ('redFnDefaults', T3, fn_defaults),
+              ('redTargetIter', 'List (String × String)', titer),
+              ('redTargetIterCatch', 'List (String × String)', titer_catch),
               ('redAbsIterExcluded', 'List String', excluded)])]
